@@ -188,3 +188,43 @@ pub fn new_db() -> SimpleParserDatabase {
 pub fn kind_name(k: SyntaxKind) -> String {
     format!("{k:?}")
 }
+
+/// Literal lexemes whose interpretation happens after lexing (semantic literal evaluation, plugins, formatter):
+/// numerics with odd prefixes / suffixes / sizes, short strings and strings with every escape shape, terminated or
+/// running to the end of the file.
+pub const LITERALS: &[&str] = &[
+    "0x", "0b2", "0o8", "1_", "1_u", "1_u7", "0xg", "1e5", "0_u8", "256_u8", "-1_u8", "0x1_felt252", "1_u256", "1__u8",
+    "99999999999999999999999999999999999999999999999999999999999999999999999999999999", "3618502788666131213697322783095070105623107215331596699973092056135872020481",
+    "''", "'", "'a", "'\\''", "'\\'", "'\\x4'", "'\\xzz'", "'\\x41'", "'abcdefghijklmnopqrstuvwxyzabcdefgh'", "'é'", "'\\u{1F600}'", "'a'_u8", "'a'_felt252", "'ab'_u8", "'\\n'", "'\\q'",
+    "\"\"", "\"", "\"a", "\"\\\"", "\"\\\"x", "\"a\\\"b\"", "\"say \\\"hi", "\"\\x4\"", "\"\\xzz\"", "\"\\x41\"", "\"\\u{110000}\"", "\"\\u{}\"", "\"\\u{41}\"", "\"é\"", "\"\\", "\"\\\\", "\"\\\\\"",
+    "\"a\"_suffix", "\"a\"b", "\"\\0\"", "\"a\nb\"", "\"\\q\"", "\"abcdefghijklmnopqrstuvwxyzabcdefghijklmnopqrstuvwxyz\"",
+];
+/// Positions in which a literal is evaluated; `$` is the literal.  Each is used both as written and cut right
+/// after the literal (an unterminated literal swallows the rest of the file anyway).
+pub const LITERAL_CONTEXTS: &[(&str, &str)] = &[
+    ("const", "const C: felt252 = $;\n"),
+    ("const-bytearray", "const S: ByteArray = $;\n"),
+    ("let", "fn f() { let _x = $; }\n"),
+    ("let-typed", "fn f() { let _x: u8 = $; }\n"),
+    ("call-arg", "fn g(x: felt252) {}\nfn f() { g($); }\n"),
+    ("macro-arg", "fn f(x: felt252) { assert!(x == 0, $); }\n"),
+    ("format", "fn f(x: felt252) -> ByteArray { format!($, x) }\n"),
+    ("pattern", "fn f(x: felt252) -> u8 { match x { $ => 1, _ => 2 } }\n"),
+    ("attribute", "#[derive(Drop)]\n#[doc($)]\nstruct S {}\n"),
+    ("feature-attr", "#[feature($)]\nfn f() {}\n"),
+    ("array-len", "fn f() { let _a: [u8; $] = [1]; }\n"),
+    ("binary", "fn f(a: u8) -> u8 { a + $ }\n"),
+    ("panic-with", "#[panic_with($, bar)]\nfn foo(a: felt252) -> Option<felt252> { Option::Some(a) }\n"),
+];
+pub fn literal_texts() -> Vec<(String, String)> {
+    let mut out = vec![];
+    for l in LITERALS {
+        for (cn, c) in LITERAL_CONTEXTS {
+            let full = c.replace('$', l);
+            out.push((format!("{cn}:{l}"), full));
+            let cut = &c[..c.find('$').unwrap()];
+            out.push((format!("{cn}:{l}:eof"), format!("{cut}{l}")));
+        }
+    }
+    out
+}
